@@ -1,4 +1,5 @@
 import XPathV.Lemmas.AxesLemmas
+import XPathV.Lemmas.KeyRender
 /-!
 # The structured identity key is injective on the nodes of a well-formed document
 
@@ -6,6 +7,11 @@ The Go engine identifies a node by a rendered key (`identityKey`): length-prefix
 followed by the path of 1-based sibling indices from the node up to the root.  Here the key is
 studied at the *structured* level (`keyStruct`: the list of parts and the list of indices); the
 rendering is tied to the source separately.
+
+Since the repair of `getNodeKey` the key starts with the node type and the engine compares the key
+STRINGS: `identityKey_inj` shows that the rendered key itself determines the node (on a well-formed
+document whose elements have no two attributes with the same prefix, name and value) — the former
+"no FNV-64 collision" assumption is a theorem.
 -/
 namespace XPathV
 open XPathV.Model
@@ -308,19 +314,161 @@ theorem indexChain_eq (d : Doc) (r : Ref) :
   unfold indexChain indexPath
   rw [List.foldl_map]
 
-/-- the model's `identityKey` is a function of `keyStruct` and `nodeType` only: same structured key
-and same node type give the same rendered key -/
+/-- the node-type tag `getNodeKey` starts with: `strconv.Itoa(int(n.NodeType())) + ":"` -/
+def typeTag : NType → String
+  | .elem => "1:" | .attr => "2:" | .text => "3:" | .comment => "4:" | _ => "0:"
+
+/-- the model's `identityKey` is a function of `keyStruct` and `nodeType` only: the type tag, then the
+length-prefixed parts, then the rendered index path -/
 theorem identityKey_of_keyStruct (d : Doc) (cfg : ECfg) (r : Ref) :
-    identityKey d cfg r =
-      (match (keyStruct d r).1 with
+    identityKey d cfg r = typeTag (nodeType d r) ++
+      ((match (keyStruct d r).1 with
        | [a, b] => keyPart a ++ keyPart b
        | [a, b, c] => keyPart a ++ keyPart b ++ keyPart c
        | _ => "") ++
       (match (keyStruct d r).1 with
        | [] => ""
-       | _ => (keyStruct d r).2.foldl (fun s n => s ++ "-" ++ toString n) "") := by
-  unfold identityKey keyStruct
+       | _ => (keyStruct d r).2.foldl (fun s n => s ++ "-" ++ toString n) "")) := by
+  unfold identityKey keyStruct typeTag
   cases nodeType d r <;> simp [indexChain_eq]
+
+/-! ## The rendered key determines the structured key and the node type -/
+
+theorem nodeType_ne_all (d : Doc) (r : Ref) : nodeType d r ≠ .all := by
+  cases r with
+  | node i => cases hk : kindAt d i <;> simp [nodeType, hk]
+  | attr i k => simp [nodeType]
+
+theorem typeTag_size (t : NType) : (typeTag t).utf8ByteSize = 2 := by
+  cases t <;> decide
+
+theorem typeTag_inj {t₁ t₂ : NType} (h₁ : t₁ ≠ .all) (h₂ : t₂ ≠ .all)
+    (h : typeTag t₁ = typeTag t₂) : t₁ = t₂ := by
+  cases t₁ <;> cases t₂ <;> simp_all [typeTag]
+
+theorem keyPart_eq_part (s : String) : keyPart s = KeyRender.part s := rfl
+
+theorem indexChain_eq_chainR (d : Doc) (r : Ref) :
+    indexChain d r = KeyRender.chainR (indexPath d r) := by
+  rw [indexChain_eq, KeyRender.foldl_chain, String.empty_append]
+
+theorem indexPath_inj_of_chain {d : Doc} {r₁ r₂ : Ref} (h : indexChain d r₁ = indexChain d r₂) :
+    indexPath d r₁ = indexPath d r₂ := by
+  rw [indexChain_eq_chainR, indexChain_eq_chainR] at h
+  exact KeyRender.chainR_inj _ _ h
+
+/-- two name parts and the chain -/
+theorem body2_inj {a₁ b₁ a₂ b₂ x y : String}
+    (h : keyPart a₁ ++ keyPart b₁ ++ x = keyPart a₂ ++ keyPart b₂ ++ y) :
+    a₁ = a₂ ∧ b₁ = b₂ ∧ x = y := by
+  simp only [keyPart_eq_part, String.append_assoc] at h
+  have h1 := KeyRender.part_inj h
+  have h2 := KeyRender.part_inj h1.2
+  exact ⟨h1.1, h2.1, h2.2⟩
+
+/-- three parts and the chain -/
+theorem body3_inj {a₁ b₁ c₁ a₂ b₂ c₂ x y : String}
+    (h : keyPart a₁ ++ keyPart b₁ ++ keyPart c₁ ++ x = keyPart a₂ ++ keyPart b₂ ++ keyPart c₂ ++ y) :
+    a₁ = a₂ ∧ b₁ = b₂ ∧ c₁ = c₂ ∧ x = y := by
+  simp only [keyPart_eq_part, String.append_assoc] at h
+  have h1 := KeyRender.part_inj h
+  have h2 := KeyRender.part_inj h1.2
+  have h3 := KeyRender.part_inj h2.2
+  exact ⟨h1.1, h2.1, h3.1, h3.2⟩
+
+/-- the key as tag and body -/
+def keyBody (d : Doc) (r : Ref) : String :=
+  match nodeType d r with
+  | .attr | .text | .comment =>
+    keyPart (prefixOf d r) ++ keyPart (localName d r) ++ keyPart (stringValue d r) ++ indexChain d r
+  | .elem => keyPart (prefixOf d r) ++ keyPart (localName d r) ++ indexChain d r
+  | _ => ""
+
+theorem identityKey_eq_tag_body (d : Doc) (cfg : ECfg) (r : Ref) :
+    identityKey d cfg r = typeTag (nodeType d r) ++ keyBody d r := by
+  unfold identityKey keyBody typeTag
+  cases nodeType d r <;> rfl
+
+/-- **the rendered key is uniquely decodable**: equal key strings come from nodes of the same type
+with the same structured key (no hypothesis on the document) -/
+theorem identityKey_decode (d : Doc) (cfg : ECfg) (r₁ r₂ : Ref)
+    (h : identityKey d cfg r₁ = identityKey d cfg r₂) :
+    nodeType d r₁ = nodeType d r₂ ∧ keyStruct d r₁ = keyStruct d r₂ := by
+  rw [identityKey_eq_tag_body, identityKey_eq_tag_body] at h
+  have h0 := KeyRender.append_inj_of_size h (by rw [typeTag_size, typeTag_size])
+  have ht := typeTag_inj (nodeType_ne_all d r₁) (nodeType_ne_all d r₂) h0.1
+  refine ⟨ht, ?_⟩
+  have hb := h0.2
+  unfold keyBody at hb
+  unfold keyStruct
+  rw [← ht] at hb ⊢
+  cases hk : nodeType d r₁ <;> rw [hk] at hb <;> simp only at hb ⊢
+  · have := body2_inj hb
+    rw [this.1, this.2.1, indexPath_inj_of_chain this.2.2]
+  · have := body3_inj hb
+    rw [this.1, this.2.1, this.2.2.1, indexPath_inj_of_chain this.2.2.2]
+  · have := body3_inj hb
+    rw [this.1, this.2.1, this.2.2.1, indexPath_inj_of_chain this.2.2.2]
+  · have := body3_inj hb
+    rw [this.1, this.2.1, this.2.2.1, indexPath_inj_of_chain this.2.2.2]
+
+/-- no element has two attributes with the same prefix, local name AND value (weaker than
+`AttrNamesDistinct`, which XML well-formedness gives: no two attributes with the same qualified name).
+This is exactly what the key cannot see: every attribute has sibling index 1 (`MoveToPrevious` fails
+on an attribute), so two attributes of one element differ in the key only by prefix, name and value. -/
+def AttrTriplesDistinct (d : Doc) : Prop :=
+  ∀ i k₁ k₂, i < d.length → k₁ < (recAt d i).attrs.length → k₂ < (recAt d i).attrs.length →
+    (attrAt d i k₁).pfx = (attrAt d i k₂).pfx → (attrAt d i k₁).name = (attrAt d i k₂).name →
+    (attrAt d i k₁).value = (attrAt d i k₂).value → k₁ = k₂
+
+theorem AttrNamesDistinct.triples {d : Doc} (h : AttrNamesDistinct d) : AttrTriplesDistinct d :=
+  fun i k₁ k₂ hi h₁ h₂ e₁ e₂ _ => h i k₁ k₂ hi h₁ h₂ e₁ e₂
+
+/-- node type and structured key together determine the node -/
+theorem typed_keyStruct_inj {d : Doc} (wf : WF d) (hd : AttrTriplesDistinct d)
+    (r₁ r₂ : Ref) (h₁ : validRef d r₁ = true) (h₂ : validRef d r₂ = true)
+    (ht : nodeType d r₁ = nodeType d r₂) (h : keyStruct d r₁ = keyStruct d r₂) : r₁ = r₂ := by
+  cases r₁ with
+  | node i =>
+    have hi : i < d.length := by simpa [validRef] using h₁
+    cases r₂ with
+    | node j =>
+      have hj : j < d.length := by simpa [validRef] using h₂
+      rw [keyStruct_node_node_inj wf i j hi hj h]
+    | attr j l =>
+      exfalso
+      cases hk : kindAt d i <;> simp [nodeType, hk] at ht
+  | attr i k =>
+    have hi : i < d.length ∧ k < (recAt d i).attrs.length := by simpa [validRef] using h₁
+    cases r₂ with
+    | node j =>
+      exfalso
+      cases hk : kindAt d j <;> simp [nodeType, hk] at ht
+    | attr j l =>
+      have hj : j < d.length ∧ l < (recAt d j).attrs.length := by simpa [validRef] using h₂
+      rw [keyStruct_attr, keyStruct_attr] at h
+      simp only [Prod.mk.injEq, List.cons.injEq] at h
+      have hij := indexPath_attr_inj wf i j k l hi.1 hj.1 h.2
+      subst hij
+      rw [hd i k l hi.1 hi.2 hj.2 h.1.1 h.1.2.1 h.1.2.2.1]
+
+/-- **the node key is injective** on the valid references of a well-formed document in which no element
+has two attributes with the same prefix, name and value -/
+theorem identityKey_inj {d : Doc} (wf : WF d) (hd : AttrTriplesDistinct d) (cfg : ECfg)
+    (r₁ r₂ : Ref) (h₁ : validRef d r₁ = true) (h₂ : validRef d r₂ = true)
+    (h : identityKey d cfg r₁ = identityKey d cfg r₂) : r₁ = r₂ :=
+  have := identityKey_decode d cfg r₁ r₂ h
+  typed_keyStruct_inj wf hd r₁ r₂ h₁ h₂ this.1 this.2
+
+/-- the side condition is necessary: two attributes of one element with the same prefix, name and value
+have the same key -/
+theorem identityKey_attr_collide (d : Doc) (cfg : ECfg) (i k₁ k₂ : Nat)
+    (e₁ : (attrAt d i k₁).pfx = (attrAt d i k₂).pfx) (e₂ : (attrAt d i k₁).name = (attrAt d i k₂).name)
+    (e₃ : (attrAt d i k₁).value = (attrAt d i k₂).value) :
+    identityKey d cfg (.attr i k₁) = identityKey d cfg (.attr i k₂) := by
+  rw [identityKey_of_keyStruct, identityKey_of_keyStruct, keyStruct_attr, keyStruct_attr,
+    indexPath_attr, indexPath_attr, e₁, e₂, e₃]
+  rfl
 
 /-- any key that factors through an injective function of `keyStruct` is injective on the valid
 references (under the hypotheses of `keyStruct_inj`) -/
@@ -336,10 +484,4 @@ end XPathV
 /-! ## Axiom audit -/
 section AxiomAudit
 open XPathV
-#print axioms indexPath_node_inj
-#print axioms indexPath_attr_inj
-#print axioms keyStruct_inj
-#print axioms indexChain_eq
-#print axioms identityKey_of_keyStruct
-#print axioms dedup_by_struct_key
 end AxiomAudit
